@@ -174,6 +174,17 @@ func checkC01Totality(res *Result) {
 				}
 			}
 			res.check(fromCtx, "C01-R8", "streams.Serialize", pos(mu), "the @context value is built from JSONLDContext()", "no flow from JSONLDContext() into the stored value")
+			okDom := true
+			for _, r := range returnsIn(fn) {
+				// success returns only (the early return on a Serialize error precedes the store)
+				if !mu.Block().Dominates(r.Block()) && r.Block() != mu.Block() {
+					ffS := computeFacts(fn)
+					if mn, _ := ffS.errStatus(r, 1); mn {
+						okDom = false
+					}
+				}
+			}
+			res.check(okDom, "C01-R8", "streams.Serialize", pos(mu), "the rebuilt @context is installed on every successful return (whatever the serialised value carried)", "the store is conditional: a context read from a document (vocabularies declared but not used, or used but only declared in a nested object) is kept instead of the vocabularies in use")
 			res.check(len(consts) == 0, "C01-R8", "streams.Serialize", pos(mu), "no constant vocabulary or alias is written into @context", fmt.Sprintf("the constant(s) %q flow into the @context value: a document that does not use that vocabulary names it all the same", consts))
 		}
 	}
